@@ -28,6 +28,7 @@ type Req struct {
 	SigFmt   string
 	SigKey   int    // key that signs (Go only)
 	SigData  string // ok | sess | user | svc | algo | key | flip   (Go only)
+	SigNoUP  bool   // SK signatures: user-presence flag clear   (Go only)
 
 	KeyParses bool   // ORACLE
 	KeyType   string // ORACLE
@@ -80,6 +81,9 @@ func (r Req) String() string {
 			add("sf", r.SigFmt)
 			add("sk", itoa(r.SigKey))
 			add("sd", r.SigData)
+			if r.SigNoUP {
+				add("nup", "1")
+			}
 			add("sv", b01(r.SigValid))
 			add("svn", b01(r.SigValidN))
 		}
@@ -126,6 +130,8 @@ func ParseReq(s string) Req {
 			fmt.Sscan(v, &r.SigKey)
 		case "sd":
 			r.SigData = v
+		case "nup":
+			r.SigNoUP = v == "1"
 		case "kp":
 			r.KeyParses = v == "1"
 		case "kt":
@@ -139,6 +145,33 @@ func ParseReq(s string) Req {
 		}
 	}
 	return r
+}
+
+const skCounter = 7
+
+func (r Req) skFlags() byte {
+	if r.SigNoUP {
+		return 0
+	}
+	return 1
+}
+
+// isSKSig: the signer is a security key asked for its own format.
+func (r Req) isSKSig() bool {
+	sk := Keys[r.SigKey]
+	if sk == nil {
+		sk = Keys[r.Key]
+	}
+	return sk.SK && r.SigFmt == SKEd25519
+}
+
+// sigBody is the content of the signature string: format, blob and, for SK signatures, flags + counter.
+func (r Req) sigBody() []byte {
+	body := Str(SStr(nil, r.SigFmt), r.sigBlob())
+	if r.isSKSig() {
+		body = U32(append(body, r.skFlags()), skCounter)
+	}
+	return body
 }
 
 // sigBlob returns the signature blob the request carries.
@@ -164,7 +197,12 @@ func (r Req) sigBlob() []byte {
 			blob = Keys[1].Blob
 		}
 	}
-	sig := SignBlob(sk, r.SigFmt, SignedData(session, user, svc, algo, blob))
+	var sig []byte
+	if r.isSKSig() {
+		sig = SKSign(sk, r.skFlags(), skCounter, SignedData(session, user, svc, algo, blob))
+	} else {
+		sig = SignBlob(sk, r.SigFmt, SignedData(session, user, svc, algo, blob))
+	}
 	if r.SigData == "flip" {
 		sig = append([]byte(nil), sig...)
 		sig[len(sig)/2] ^= 0x10
@@ -212,7 +250,7 @@ func (r Req) Packet() []byte {
 			}
 			return p
 		}
-		body := Str(SStr(nil, r.SigFmt), r.sigBlob())
+		body := r.sigBody()
 		switch r.SigShape {
 		case "ok":
 			p = Str(p, body)
@@ -242,8 +280,15 @@ func (r *Req) FillOracle() {
 		return
 	}
 	want := SignedData(SessionID, r.User, r.Service, r.Algo, k.Blob)
+	if k.SK {
+		// the flags / counter the packet carries (none if the signer was not an SK key: Verify then fails)
+		if r.isSKSig() {
+			r.SigValid, r.SigValidN = OracleVerifySK(k, r.SigFmt, r.sigBlob(), r.skFlags(), skCounter, want)
+		}
+		return
+	}
 	r.SigValid = OracleVerify(k, r.SigFmt, r.sigBlob(), want)
-	r.SigValidN = r.SigValid // no security-key (SK) keys in the table: user presence does not apply
+	r.SigValidN = r.SigValid // user presence does not apply to ordinary keys
 }
 
 // Cfg is the configuration part of the op line.
@@ -290,7 +335,7 @@ func (c Cfg) String(reqs []Req) string {
 			}
 		}
 		pm = append(pm, fmt.Sprintf("%d~%s~%s", id, sa, b01(p.NoTouch)))
-		ps = append(ps, fmt.Sprintf("%d~%s", id, sv))
+		ps = append(ps, fmt.Sprintf("%d~%s", id, strings.ReplaceAll(sv, " ", "_"))) // op-line fields are space-separated
 	}
 	if len(pm) == 0 {
 		sb.WriteString(" perms=- psa=-")
